@@ -17,7 +17,9 @@ import (
 // scope values: nested objects/maps/lists/tuples/sets with primitive, null, unknown and marked leaves
 
 var attrPool = []string{"a", "b", "c", "foo", "bar", "x-y", "k1", "for", "in", "null_", "type", "é", "id", "0a"}
-var keyPool = []string{"a", "b", "foo", "x y", "0", "1", "", "a.b", "${", "k\"q", "é", "%{x}", "line\nbreak", "2"}
+var keyPool = []string{"a", "b", "foo", "x y", "0", "1", "", "a.b", "${", "k\"q", "é", "%{x}", "line\nbreak", "2",
+	// keys that look like other syntax: calls, brackets, splats, comments, operators
+	"a(b)", "(", "f()", "[0]", "a]", "*", "...", "=>", "a,b", "#c", "/*c*/", "?:", "{}"}
 
 func pick(r *lib.Rand, xs []string) string { return xs[r.Intn(len(xs))] }
 
